@@ -384,6 +384,12 @@ class AuthHandler:
     def _parse_service_accept(self, m):
         service = m.get_text()
         if service == "ssh-userauth":
+            if self.username is None:
+                # nothing was asked for, or the attempt it belonged to has
+                # already been answered (eg by a failure message)
+                raise SSHException(
+                    "Unexpected service accept: no authentication pending"
+                )
             self._log(DEBUG, "userauth is OK")
             m = Message()
             m.add_byte(cMSG_USERAUTH_REQUEST)
